@@ -18,7 +18,7 @@ ASSUMPTIONS = ['a call that raises is acceptable (counted); only the document an
                'if its Calculate emits the same actions the pending work was left by the bundle (C04/C05 territory) and the case is only counted',
                'volatile formulas (NOW/TODAY/RAND/UUID/REQUEST) are never generated']
 REQUIRED = {'calls': {'quick': 1500, 'thorough': 15000}, 'calls_returned': {'quick': 700, 'thorough': 7000},
-            'calls_after_failed_bundle': {'quick': 40, 'thorough': 400}, 'side_effect_evaluations': {'quick': 20, 'thorough': 200},
+            'calls_after_failed_bundle': {'quick': 40, 'thorough': 400}, 'side_effect_evaluations': {'quick': 20, 'thorough': 200}, 'calls_with_reverted_side_effects': {'quick': 10, 'thorough': 60},
             'fn.fetch_table': {'quick': 100, 'thorough': 1000}, 'fn.fetch_meta_tables': {'quick': 20, 'thorough': 200},
             'fn.get_formula_error': {'quick': 150, 'thorough': 1500}, 'fn.evaluate_formula': {'quick': 150, 'thorough': 1500},
             'fn.get_formula_prompt': {'quick': 80, 'thorough': 800}, 'fn.autocomplete': {'quick': 200, 'thorough': 2000},
@@ -258,6 +258,9 @@ class ReadOnlyMonitor(histories.Monitor):
     self.gen = CallGen(rnd)
     self.r = rnd
 
+  def start(self, h):
+    h.proc.call('verif_py', 'props.C29_inproc', 'install')
+
   def has_side_effect_formula(self, S):
     C = snapshot.rows_of(S, '_grist_Tables_column')
     return any(isinstance(c['formula'], str) and 'lookupOrAddDerived' in c['formula'] for c in C.values())
@@ -282,6 +285,7 @@ class ReadOnlyMonitor(histories.Monitor):
       acc.count('calls_after_failed_bundle')
     wire = json.loads(json.dumps(args))
     h.log.append(['read:' + name, wire, None])
+    h.proc.call('verif_py', 'props.C29_inproc', 'drain')
     try:
       res = h.proc.call(name, *wire)
       outcome = 'ok'
@@ -295,6 +299,11 @@ class ReadOnlyMonitor(histories.Monitor):
       acc.count('calls_raised')
       acc.seen('exception_classes', e.cls)
     h.log[-1][2] = outcome == 'ok'
+    reverts, nrev = h.proc.call('verif_py', 'props.C29_inproc', 'drain')
+    if reverts:
+      acc.count('calls_with_reverted_side_effects')
+      acc.count('side_effect_actions_reverted', nrev)
+      acc.count('reverted.' + name)
     S1 = h.snap()
     detail = {'call': [name] + wire, 'outcome': outcome, 'when': when}
     d = snapshot.diff(S0, S1)
@@ -401,6 +410,7 @@ def scenario_summary(acc):
 
 
 def run_scenario(acc, p, name, calls):
+  p.call('verif_py', 'props.C29_inproc', 'install')
   S0 = snapshot.take(p)
   r = p.apply([['Calculate']])
   if r.stored:
@@ -411,6 +421,7 @@ def run_scenario(acc, p, name, calls):
     acc.count('scenario_calls')
     acc.count('fn.' + call[0])
     wire = json.loads(json.dumps(call[1:]))
+    p.call('verif_py', 'props.C29_inproc', 'drain')
     try:
       p.call(call[0], *wire)
       outcome = 'ok'
@@ -422,6 +433,11 @@ def run_scenario(acc, p, name, calls):
       outcome = 'raise:' + e.cls
       acc.count('calls_raised')
       acc.seen('exception_classes', e.cls)
+    reverts, nrev = p.call('verif_py', 'props.C29_inproc', 'drain')
+    if reverts:
+      acc.count('calls_with_reverted_side_effects')
+      acc.count('side_effect_actions_reverted', nrev)
+      acc.count('reverted.' + call[0])
     S1 = snapshot.take(p)
     d = snapshot.diff(S0, S1)
     acc.case(histories.shape_hash('scenario', name, call[0], call[2:4] if call[0] != 'autocomplete' else call[1:5], outcome)
